@@ -32,7 +32,8 @@ RULE = ("seeded random ASTs over + - * / (strings) and + - * / min max consumpti
 PAIRS = [f"pair:{p}{s}{c}" for p in fm.BINOPS for s in "LR" for c in fm.BINOPS]
 REQUIRED_BUCKETS = ["mode:string", "mode:builder", "mode:api", "mode:api3", "redundant-parens", "same-engine-twice",
                     "api-min-max", "api-consumption-production", "api-constant", "subexpression-zero", "mode:builderx",
-                    "builder-clip-step", "inputs-begin-at-different-times"] + PAIRS
+                    "builder-clip-step", "inputs-begin-at-different-times",
+                    "distinct-engines-with-the-same-name"] + PAIRS
 REQUIRED_COUNTERS = ["rounds_compared", "programs_run", "rounds_with_division_by_zero"]
 ASSUMPTIONS = ["inputs finite; outputs compared per input timestamp; one output per input vector"]
 
@@ -69,6 +70,10 @@ def gen(rng: Any, tier: str, i: int) -> Any:
             v = [rng.choice(fm.POOL) for _ in range(nleaf)]
         vecs.append(v)
     prog["vectors"] = vecs
+    if mode in ("api", "api3") and nleaf >= 2 and rng.random() < 0.25:
+        # distinct engines that carry the same name (every battery pool's power formula is called "battery-power"):
+        # they are still different operands
+        prog["leaf_names"] = [rng.choice(["power", "power", "other"]) for _ in range(nleaf)]
     if mode != "api3" and nleaf >= 2 and rng.random() < 0.35:
         # inputs that begin at different times: some streams carry 1-3 older samples (often the same number on
         # several streams), at least one stream begins with round 0
@@ -195,6 +200,8 @@ def check(prog: dict[str, Any], rec: Any) -> None:
         rec.bucket("builder-clip-step")
     if prog.get("prelude"):
         rec.bucket("inputs-begin-at-different-times")
+    if prog.get("leaf_names") and len(set(prog["leaf_names"][i] for i in set(lv))) < len(set(lv)):
+        rec.bucket("distinct-engines-with-the-same-name")
     if _has(ast, lambda a: a[0] == "const"):
         rec.bucket("api-constant")
 
